@@ -43,6 +43,8 @@ COMMS = {
     "unit": {"k": "unit", "a": [1, 4], "b": Z},
     "tier": {"k": "tier", "a": [2, 1], "b": [1, 4]},
     "prop": {"k": "prop", "a": [1, 100], "b": Z},
+    "sell": {"k": "sell", "a": [1, 100], "b": Z},
+    "buy": {"k": "buy", "a": [1, 100], "b": Z},
 }
 
 
@@ -376,7 +378,7 @@ class HistoryGen:
                 m = C["comm"][C["par"][x - 1] - 1]
                 a_, b_ = Fraction(*m["a"]), Fraction(*m["b"])
                 for q in (1, 2, 3, 4, 5, 8, 10):
-                    fee = {"zero": Fraction(0), "fix": a_, "unit": a_ * q, "tier": max(a_, b_ * q), "prop": a_ * q * pm}[m["k"]]
+                    fee = {"zero": Fraction(0), "fix": a_, "unit": a_ * q, "tier": max(a_, b_ * q), "prop": a_ * q * pm, "sell": a_ * q * pm, "buy": Fraction(0)}[m["k"]]
                     if fee != 0 and fee == q * pm:
                         cands.append((x, q))
             if cands:
